@@ -1,13 +1,13 @@
 -- REGENERATED from src/plz/plz.go, src/fs/walk.go, src/core/build_target.go, go.mod, /root/go/pkg/mod/github.com/karrick/godirwalk@v1.17.0/walk.go by /verif/harness/extract/c22 on every run. Do not edit.
 namespace PlzVerif.Generated.C22
 def outDir : List Char := ['p', 'l', 'z', '-', 'o', 'u', 't']
--- branch 0: basename == core.OutDir || (isDir && strings.HasPrefix(basename, ".") && name != ".")  =>  return filepath.SkipDir
+-- branch 0: isDir && (basename == core.OutDir || (strings.HasPrefix(basename, ".") && name != "."))  =>  return filepath.SkipDir
 -- branch 1: isDir && !strings.HasPrefix(name, prefix) && !strings.HasPrefix(prefix, name)  =>  return filepath.SkipDir
 -- branch 2: config.IsABuildFile(basename) && !isDir  =>  ch <- name
--- branch 3: cli.ContainsString(name, config.Parse.ExperimentalDir)  =>  return filepath.SkipDir
-def chain : List (List Nat × Nat) := [([0, 1, 2, 101, 3, 100, 101, 102], 0), ([1, 4, 100, 101, 5, 100, 101], 0), ([6, 1, 100, 101], 1), ([7], 0)]
--- blacklist loop: dir == basename || strings.HasPrefix(name, dir)  =>  return filepath.SkipDir
-def blCond : List Nat := [8, 9, 102]
+-- branch 3: isDir && cli.ContainsString(name, config.Parse.ExperimentalDir)  =>  return filepath.SkipDir
+def chain : List (List Nat × Nat) := [([1, 0, 2, 3, 100, 101, 102, 101], 0), ([1, 4, 100, 101, 5, 100, 101], 0), ([6, 1, 100, 101], 1), ([1, 7, 101], 0)]
+-- blacklist loop: isDir && (dir == basename || name == dir || strings.HasPrefix(name, dir+"/"))  =>  return filepath.SkipDir
+def blCond : List Nat := [1, 8, 10, 102, 11, 102, 101]
 def cutOnNonDir : Bool := true
 def sorted : Bool := true
 def walkPassesIsDir : Bool := true
